@@ -155,6 +155,11 @@ def shrink(geom, ops, fails):
     return ops
 
 
+def setup(src):
+    e2v.build_harness("h_bitmap", src)
+    e2v.build_driver("bitmap", ["theories/Bitmap/RBModel.vo", "theories/Bitmap/BAModel.vo"], ["bitmap_model"])
+
+
 def run(res, replay=None):
     tier, seed = res.tier, res.seed
     src = e2v.ensure_build()
